@@ -74,6 +74,9 @@ func (f *in) Listen(onMsg func(msg []byte, milliseconds int32), conf drivers.Lis
 
 	f.last = time.Now()
 
+	// a previous listener may have been stopped: listening again must work
+	f.stopListening = false
+
 	stopFn = func() {
 		f.stopListening = true
 	}
@@ -143,7 +146,8 @@ func (f *out) Send(bt []byte) error {
 		return drivers.ErrPortClosed
 	}
 
-	if f.stopListening {
+	// nobody is listening (yet): the message is dropped
+	if f.stopListening || f.rd == nil {
 		return nil
 	}
 
